@@ -73,8 +73,8 @@ def specSolString (toks : List String) : String :=
     match parseHexNat slot, parseStorage st, parseKmap km with
     | some slot, some st, some km =>
       let stf := fun s => (alookup s st).getD 0
-      -- lengths ≥ 2^64 cannot be loaded and are rejected by the code ("storage too large"): guard of c09_string_exact
-      if ((stf slot) - 1) / 2 ≥ U64 ∧ (stf slot) % 2 = 1 then "reject" else
+      -- lengths above 2^64 - 32 cannot be loaded and are rejected by the code ("storage too large"): guard of c09_string_exact
+      if ((stf slot) - 1) / 2 > U64 - 32 ∧ (stf slot) % 2 = 1 then "reject" else
       match solString stf (fun b => (alookup b km).getD 0) slot with
       | some b => hexBytes b
       | none => "reject"
